@@ -1,14 +1,23 @@
 // Recorder for pgm::internal::LoserTree (the tournament tree behind DynamicPGMIndex::Iterator; C06).
 // The tree is driven exactly as Iterator::lazy_initialize() / advance() drive it: LoserTree(n), insert_start for every
 // cursor, init(), then min_source() / delete_min_insert(next key or nullptr) until every cursor is exhausted.  Every
-// min_source() is logged; spec/LoserTrace.tla replays the lines on spec/LoserTree.tla.  No hook is needed (public API).
+// min_source() is logged; spec/LoserTrace.tla replays the lines on spec/LoserTree.tla.  The private array is logged through the friend accessor (hook H5) for the cell-by-cell comparison with the model.
 #include "rec_common.hpp"
-#include "pgm/pgm_index_dynamic.hpp"
+#include "access.hpp"
 
 using namespace vrec;
 
 static std::vector<std::unique_ptr<Out>> g_outs;
 static long long g_x = 0, g_only = -1;
+
+// the private array, cell by cell (tier B: must equal the model's `losers`); the exhausted mark max() is written as 1000
+template<typename T>
+std::string cells_of(const pgm::internal::LoserTree<T> &tree) {
+    std::vector<std::vector<long long>> c;
+    for (auto &e : pgm::verif::Access::loser_cells(tree))
+        c.push_back({e.key == std::numeric_limits<T>::max() ? 1000LL : (long long) e.key, (long long) e.source});
+    return jarr2(c);
+}
 
 template<typename T>
 void run_tree(const std::vector<std::vector<long long>> &seqs, const char *src) {
@@ -24,7 +33,7 @@ void run_tree(const std::vector<std::vector<long long>> &seqs, const char *src) 
     for (size_t s = 0; s < n; ++s) tree.insert_start(&data[s][0], (uint8_t) s);
     tree.init();
     size_t unconsumed = n;
-    out.begin("LBuild").num("n", (long long) n).raw("seqs", jarr2(seqs)).num("min", (long long) tree.min_source()).end();
+    out.begin("LBuild").num("n", (long long) n).raw("seqs", jarr2(seqs)).num("min", (long long) tree.min_source()).raw("cells", cells_of(tree)).end();
     size_t guard = 0, total = 0;
     for (auto &s : seqs) total += s.size();
     while (unconsumed > 0 && guard++ < total + 4) {
@@ -36,7 +45,7 @@ void run_tree(const std::vector<std::vector<long long>> &seqs, const char *src) 
         ++cur[s];
         if (cur[s] == data[s].size()) { tree.delete_min_insert(nullptr); --unconsumed; }
         else tree.delete_min_insert(&data[s][cur[s]]);
-        out.begin("LPop").num("src", (long long) s).num("min", unconsumed ? (long long) tree.min_source() : -1).end();
+        out.begin("LPop").num("src", (long long) s).num("min", unconsumed ? (long long) tree.min_source() : -1).raw("cells", cells_of(tree)).end();
     }
     out.begin("End").end();
 }
